@@ -135,6 +135,34 @@ theorem narrow_in_range (lo hi : Int) (r : Dec Int) (v : Int) (rest : Bytes)
     · simp at h; obtain ⟨rfl, _⟩ := h; assumption
     · simp at h
 
+/-- The encoding is injective: two (well-formed) values of one type that the encoder writes as the same
+    bytes are the same value — nothing is lost or conflated on the wire, at any nesting depth. -/
+theorem encode_injective (t : Ty) (v v' : Val t) (bs : Bytes) (hwf : WF t v) (hwf' : WF t v')
+    (h : encode t v = some bs) (h' : encode t v' = some bs) : v = v' := by
+  have e1 := roundtrip t v bs [] hwf h
+  have e2 := roundtrip t v' bs [] hwf' h'
+  rw [e1] at e2
+  injection e2 with e2
+  injection e2
+
+/-- The encoding is a prefix code: if the encodings of two values are each followed by arbitrary bytes and
+    the two byte strings are equal, the values are equal, their encodings are equal and so are the
+    followers. In particular no encoding is a proper prefix of another one of the same type — a value in a
+    stream is delimited by its own bytes alone (what "consumes exactly the bytes written" needs). -/
+theorem encode_prefix_free (t : Ty) (v v' : Val t) (a b x y : Bytes) (hwf : WF t v) (hwf' : WF t v')
+    (h : encode t v = some a) (h' : encode t v' = some b) (e : a ++ x = b ++ y) :
+    v = v' ∧ a = b ∧ x = y := by
+  have e1 := roundtrip t v a x hwf h
+  have e2 := roundtrip t v' b y hwf' h'
+  rw [e, e2] at e1
+  injection e1 with e1
+  injection e1 with hv hxy
+  subst hv
+  subst hxy
+  refine ⟨rfl, ?_, rfl⟩
+  rw [h] at h'
+  injection h'
+
 /-! non-vacuity: concrete non-trivial values meet the hypotheses -/
 example : WF (.dictH (.uint .w1) (.seq .str)) [((1 : Int), [[104, 105]]), ((2 : Int), [])] := by
   refine ⟨by decide, ?_⟩
@@ -157,3 +185,5 @@ end Slicec.C10
 #print axioms Slicec.C10.varint_refused
 #print axioms Slicec.C10.decode_dispatch_total
 #print axioms Slicec.C10.narrow_in_range
+#print axioms Slicec.C10.encode_injective
+#print axioms Slicec.C10.encode_prefix_free
